@@ -220,6 +220,15 @@ NEW_SELFTESTS = [
 ]
 
 
+def _kf_free(run):
+    """no event of the run can trigger a recorded known finding (the self-tests run the strict contract)"""
+    for e in run:
+        if e.get("op") == "panic" or (e.get("op") == "retain" and e.get("mut")) or (e.get("op") == "clone" and not e.get("eq")) \
+                or (e.get("via") == "get_fast" and e.get("k") == 0):
+            return False
+    return True
+
+
 def parallel_selftests(ctx, files, tests):
     """binding self-tests of the new event kinds: like ctx.selftest_corrupt (first run a corruption applies to,
     corrupted copy must be REJECTED), but the TLC runs go in parallel.  For an immediate corruption the run is
@@ -241,6 +250,10 @@ def parallel_selftests(ctx, files, tests):
                     at = [i for i, (x, y) in enumerate(zip(run, mutated)) if x != y][0]
                     mutated = mutated[:at + 1]
                     expect = at + 1
+                    if not _kf_free(run[:at]):
+                        continue
+                elif not _kf_free(run):
+                    continue
                 p = os.path.join(ctx.work, "selftest-x%d.ndjson" % len(jobs))
                 vlib.write_ndjson(p, mutated)
                 jobs.append((p, what, expect))
